@@ -1,5 +1,5 @@
 (** C01 — lemmas. *)
-From Coq Require Import List Arith NArith Bool Lia.
+From Coq Require Import List Arith NArith ZArith Bool Lia.
 From SV Require Import C01.Model.
 Import ListNotations.
 
@@ -89,6 +89,135 @@ Proof.
   - destruct (Nat.leb_spec (length body) max) as [H|H].
     + constructor; [exact H | constructor].
     + constructor; [cbn; rewrite firstn_length; lia | apply IH].
+Qed.
+
+(** ** H2 block converter *)
+Lemma body_of_cons_chunk d r : body_of (BChunk d :: r) = d ++ body_of r.
+Proof. reflexivity. Qed.
+
+Lemma blocks_after_body pl d r :
+  body_of (match skipn pl d with [] => r | _ => BChunk (skipn pl d) :: r end) = skipn pl d ++ body_of r.
+Proof. destruct (skipn pl d) eqn:E; reflexivity. Qed.
+
+(** nothing lost, duplicated or reordered by one prepare: emitted payload ++ queued body = body *)
+Lemma h2_prepare_conserves fuel : forall window max blocks,
+  let '(fs, bl, _) := h2_prepare fuel window max blocks in
+  payload_of fs ++ body_of bl = body_of blocks.
+Proof.
+  induction fuel as [|f IH]; intros window max blocks; cbn [h2_prepare]; [reflexivity|].
+  destruct blocks as [|[d|] r]; [reflexivity| |].
+  - destruct ((Z.of_nat (length d) <=? window)%Z && (length d <=? max)) eqn:Efit.
+    + specialize (IH (window - Z.of_nat (length d))%Z max r).
+      destruct (h2_prepare f (window - Z.of_nat (length d))%Z max r) as [[fs bl] w].
+      cbn [payload_of flat_map f_payload]. rewrite <- app_assoc. fold (payload_of fs).
+      rewrite IH. reflexivity.
+    + destruct (0 <? window)%Z eqn:Epos; [|reflexivity].
+      set (pl := Z.to_nat (Z.min (Z.of_nat max) window)).
+      destruct (Z.of_nat max <? window)%Z eqn:Ecan.
+      * specialize (IH (window - Z.of_nat pl)%Z max
+                       (match skipn pl d with [] => r | _ => BChunk (skipn pl d) :: r end)).
+        destruct (h2_prepare f (window - Z.of_nat pl)%Z max _) as [[fs bl] w].
+        cbn [payload_of flat_map f_payload]. rewrite <- app_assoc. fold (payload_of fs).
+        rewrite IH, blocks_after_body, body_of_cons_chunk, app_assoc, firstn_skipn. reflexivity.
+      * cbn [payload_of flat_map f_payload]. rewrite app_nil_r.
+        rewrite blocks_after_body, body_of_cons_chunk, app_assoc, firstn_skipn. reflexivity.
+  - specialize (IH window max r).
+    destruct (h2_prepare f window max r) as [[fs bl] w].
+    cbn [payload_of flat_map f_payload app]. fold (payload_of fs). exact IH.
+Qed.
+
+(** frame sizes, window accounting: every payload fits the frame size, the window
+    decreases by exactly the payload sent and never goes below zero if it started at or above *)
+Lemma h2_prepare_budget fuel : forall window max blocks,
+  let '(fs, _, w') := h2_prepare fuel window max blocks in
+  Forall (fun fr => length (f_payload fr) <= max) fs /\
+  (w' = window - Z.of_nat (length (payload_of fs)))%Z /\
+  ((0 <= window)%Z -> (0 <= w')%Z).
+Proof.
+  induction fuel as [|f IH]; intros window max blocks; cbn [h2_prepare].
+  - cbn. split; [constructor | split; lia].
+  - destruct blocks as [|[d|] r].
+    + cbn. split; [constructor | split; lia].
+    + destruct ((Z.of_nat (length d) <=? window)%Z && (length d <=? max)) eqn:Efit.
+      * apply andb_true_iff in Efit as [E1 E2]. apply Z.leb_le in E1. apply Nat.leb_le in E2.
+        specialize (IH (window - Z.of_nat (length d))%Z max r).
+        destruct (h2_prepare f (window - Z.of_nat (length d))%Z max r) as [[fs bl] w].
+        destruct IH as (A & B & C).
+        cbn [payload_of flat_map f_payload]. fold (payload_of fs). rewrite app_length.
+        split; [constructor; [exact E2 | exact A] | split; lia].
+      * destruct (0 <? window)%Z eqn:Epos.
+        -- apply Z.ltb_lt in Epos.
+           set (pl := Z.to_nat (Z.min (Z.of_nat max) window)).
+           assert (Hpl : (Z.of_nat pl <= window)%Z) by (subst pl; lia).
+           assert (Hfl : length (firstn pl d) <= max) by (rewrite firstn_length; subst pl; lia).
+           assert (Hfl2 : (Z.of_nat (length (firstn pl d)) <= Z.of_nat pl)%Z) by (rewrite firstn_length; lia).
+           destruct (Z.of_nat max <? window)%Z eqn:Ecan.
+           ++ specialize (IH (window - Z.of_nat pl)%Z max
+                             (match skipn pl d with [] => r | _ => BChunk (skipn pl d) :: r end)).
+              destruct (h2_prepare f (window - Z.of_nat pl)%Z max _) as [[fs bl] w].
+              destruct IH as (A & B & C).
+              cbn [payload_of flat_map f_payload]. fold (payload_of fs). rewrite app_length.
+              split; [constructor; assumption|].
+              (* the frame header announces pl; the payload has pl bytes when the chunk is longer than pl *)
+              assert (Hlen : length (firstn pl d) = pl).
+              { rewrite firstn_length. apply Nat.min_l.
+                apply andb_false_iff in Efit. subst pl.
+                destruct Efit as [E|E]; [apply Z.leb_gt in E | apply Nat.leb_gt in E]; lia. }
+              rewrite Hlen. split; lia.
+           ++ cbn [payload_of flat_map f_payload]. rewrite app_nil_r.
+              assert (Hlen : length (firstn pl d) = pl).
+              { rewrite firstn_length. apply Nat.min_l.
+                apply andb_false_iff in Efit. subst pl.
+                destruct Efit as [E|E]; [apply Z.leb_gt in E | apply Nat.leb_gt in E]; lia. }
+              split; [constructor; [exact Hfl | constructor] | rewrite Hlen; split; lia].
+        -- cbn. split; [constructor | split; lia].
+    + specialize (IH window max r).
+      destruct (h2_prepare f window max r) as [[fs bl] w]. destruct IH as (A & B & C).
+      cbn [payload_of flat_map f_payload app]. fold (payload_of fs).
+      split; [constructor; [cbn; lia | exact A] | split; assumption].
+Qed.
+
+(** END_STREAM is only emitted once the queue before it is empty: with the end
+    marker last, an END_STREAM frame means the whole body went out and nothing is left *)
+Lemma h2_prepare_end fuel : forall window max chunks,
+  let blocks := map BChunk chunks ++ [BEnd] in
+  let '(fs, bl, _) := h2_prepare fuel window max blocks in
+  existsb f_end fs = true -> bl = [] /\ payload_of fs = concat chunks.
+Proof.
+  induction fuel as [|f IH]; intros window max chunks; cbn [h2_prepare]; [cbn; discriminate|].
+  destruct chunks as [|d cs]; cbn [map app].
+  - destruct f as [|f']; cbn [h2_prepare]; cbn; auto.
+  - destruct ((Z.of_nat (length d) <=? window)%Z && (length d <=? max)) eqn:Efit.
+    + specialize (IH (window - Z.of_nat (length d))%Z max cs). cbn zeta in IH.
+      destruct (h2_prepare f (window - Z.of_nat (length d))%Z max (map BChunk cs ++ [BEnd])) as [[fs bl] w].
+      cbn [existsb f_end orb]. intros H. destruct (IH H) as [A B].
+      split; [exact A|]. cbn [payload_of flat_map f_payload concat]. fold (payload_of fs). rewrite B. reflexivity.
+    + destruct (0 <? window)%Z eqn:Epos; [|cbn; discriminate].
+      set (pl := Z.to_nat (Z.min (Z.of_nat max) window)).
+      destruct (Z.of_nat max <? window)%Z eqn:Ecan; [|cbn; discriminate].
+      destruct (skipn pl d) as [|b after] eqn:Eafter.
+      * specialize (IH (window - Z.of_nat pl)%Z max cs). cbn zeta in IH.
+        destruct (h2_prepare f (window - Z.of_nat pl)%Z max (map BChunk cs ++ [BEnd])) as [[fs bl] w].
+        cbn [existsb f_end orb]. intros H. destruct (IH H) as [A B].
+        split; [exact A|]. cbn [payload_of flat_map f_payload concat]. fold (payload_of fs). rewrite B.
+        rewrite <- (firstn_skipn pl d) at 2. rewrite Eafter, app_nil_r. reflexivity.
+      * specialize (IH (window - Z.of_nat pl)%Z max ((b :: after) :: cs)). cbn zeta in IH. cbn [map app] in IH.
+        destruct (h2_prepare f (window - Z.of_nat pl)%Z max (BChunk (b :: after) :: map BChunk cs ++ [BEnd])) as [[fs bl] w].
+        cbn [existsb f_end orb]. intros H. destruct (IH H) as [A B].
+        split; [exact A|]. cbn [payload_of flat_map f_payload concat]. fold (payload_of fs). rewrite B.
+        cbn [concat]. rewrite app_assoc, <- Eafter, firstn_skipn. reflexivity.
+Qed.
+
+(** over any window schedule: what went out so far, then what is queued, is the body *)
+Lemma h2_rounds_conserve fuel max : forall windows blocks,
+  let '(rs, final) := h2_rounds fuel max windows blocks in
+  flat_map (fun r => payload_of (fst r)) rs ++ body_of final = body_of blocks.
+Proof.
+  induction windows as [|w ws IH]; intros blocks; cbn [h2_rounds]; [reflexivity|].
+  pose proof (h2_prepare_conserves fuel w max blocks) as H1.
+  destruct (h2_prepare fuel w max blocks) as [[fs bl] w'].
+  specialize (IH bl). destruct (h2_rounds fuel max ws bl) as [rest final].
+  cbn [flat_map fst]. rewrite <- app_assoc, IH. exact H1.
 Qed.
 
 (** ** Relay *)
@@ -287,3 +416,31 @@ Lemma census_unchanged_proof :
                                (String.eqb file (fst f) && String.eqb fn (snd f) && (0 <? arms))%bool) gen_census)
           entry_points = true.
 Proof. split; vm_compute; reflexivity. Qed.
+
+Lemma h2_converter_exact_proof :
+  forall fuel max windows chunks (ended : bool),
+    let blocks := map BChunk chunks ++ (if ended then [BEnd] else []) in
+    let '(rs, final) := h2_rounds fuel max windows blocks in
+    (* no loss, duplication, reordering across any window schedule *)
+    flat_map (fun r => payload_of (fst r)) rs ++ body_of final = List.concat chunks /\
+    (* every round: frame sizes, exact window accounting, never below zero *)
+    (forall w blocks',
+        let '(fs, _, w') := h2_prepare fuel w max blocks' in
+        Forall (fun fr => List.length (f_payload fr) <= max) fs /\
+        (w' = w - Z.of_nat (List.length (payload_of fs)))%Z /\ ((0 <= w)%Z -> (0 <= w')%Z)) /\
+    (* END_STREAM in a round only with the whole remaining body out and nothing queued *)
+    (forall w cs,
+        let '(fs, bl, _) := h2_prepare fuel w max (map BChunk cs ++ [BEnd]) in
+        existsb f_end fs = true -> bl = [] /\ payload_of fs = List.concat cs).
+Proof.
+  intros fuel max windows chunks ended blocks.
+  pose proof (h2_rounds_conserve fuel max windows blocks) as H.
+  destruct (h2_rounds fuel max windows blocks) as [rs final].
+  split; [|split].
+  - rewrite H. subst blocks. unfold body_of. rewrite flat_map_app.
+    assert (E : flat_map (fun b => match b with BChunk d => d | BEnd => [] end) (map BChunk chunks) = List.concat chunks).
+    { clear. induction chunks as [|c cs IH]; cbn; [reflexivity | rewrite IH; reflexivity]. }
+    rewrite E. destruct ended; cbn; rewrite app_nil_r; reflexivity.
+  - intros w blocks'. exact (h2_prepare_budget fuel w max blocks').
+  - intros w cs. exact (h2_prepare_end fuel w max cs).
+Qed.
